@@ -405,6 +405,21 @@ def meta_key_tuple(key):
     return (key, None)
 
 
+def pad_carried_ids(text):
+    """The same message with the storyID / itemID text of every CARRIED story and item surrounded by white space (a
+    sender that puts text on its own line).  References (targets, listed IDs) are left as they are."""
+    import xml.etree.ElementTree as ET
+    root = ET.fromstring(text)
+    n = 0
+    for el in root.iter():
+        if el.tag in ('story', 'item', 'roStorySend'):
+            for c in el:
+                if c.tag in ('storyID', 'itemID') and c.text and c.text.strip() == c.text:
+                    c.text = '\n      ' + c.text + '\n    '
+                    n += 1
+    return ET.tostring(root, encoding='unicode') if n else text
+
+
 class HMixed:
     """Small running orders (mixed timing metadata, paragraphs, items repeated across stories)
     under all 24 mergeable message classes."""
@@ -420,7 +435,8 @@ class HMixed:
 
     def __init__(self, pool=4, cap=3, ipool=3, icap=3, max_list=2, init_shapes='std', kinds=spec.ALL_KINDS,
                  rich=False, layouts=('before', 'between'), replace_variant=1, packings=('one',),
-                 meta_subsets=2, uniform_timing=None, story_L=None, nmeta=4, envelope='std'):
+                 meta_subsets=2, uniform_timing=None, story_L=None, nmeta=4, envelope='std', pad_ids=False):
+        self.pad_ids = pad_ids
         self.pool = gen.STORY_POOL[:pool]
         self.cap = cap
         self.ipool = gen.ITEM_POOL[:ipool]
@@ -527,6 +543,10 @@ class HMixed:
             yield {'kind': 'ReadyToAir'}
 
     def render(self, case, view):
+        text = self._render(case, view)
+        return pad_carried_ids(text) if self.pad_ids else text
+
+    def _render(self, case, view):
         k = case['kind']
         if k == 'MetaDataReplace':
             return gen.msg_metadata_replace([meta_elem_xml(key) for key in case['elems']])
